@@ -61,6 +61,23 @@ func cloneProg(p *Prog) *Prog {
 	return &q
 }
 
+func cloneExpr(e *Expr) *Expr {
+	if e == nil {
+		return nil
+	}
+	c := *e
+	c.Path = append([]string(nil), e.Path...)
+	c.Keys = append([]string(nil), e.Keys...)
+	c.Elems = make([]*Expr, len(e.Elems))
+	for i, x := range e.Elems {
+		c.Elems[i] = cloneExpr(x)
+	}
+	if len(e.Elems) == 0 {
+		c.Elems = nil
+	}
+	return &c
+}
+
 // reachable returns the names of callables in the transitive closure of the top call.
 func reachable(p *Prog) map[string]bool {
 	out := map[string]bool{}
@@ -329,6 +346,123 @@ var edits = []progEdit{
 		}
 		return nil, "", false
 	}},
+	{"semantic:retarget-reference-member", true, func(p *Prog, plan *Tape) (*Prog, string, bool) {
+		// a reference keeps its root (self.x / CALL.out) but projects a different
+		// member of the same struct, of the same type: self.cfg.lanes -> self.cfg.reads
+		q := cloneProg(p)
+		for _, pl := range q.Pipelines {
+			for _, c := range pl.Calls {
+				for i := range c.Binds {
+					c.Binds[i].E = cloneExpr(c.Binds[i].E)
+				}
+			}
+			for i := range pl.Ret {
+				pl.Ret[i].E = cloneExpr(pl.Ret[i].E)
+			}
+		}
+		r := reachable(q)
+		for _, pl := range q.Pipelines {
+			if !r[pl.Name] {
+				continue
+			}
+			rootType := func(e *Expr) (Ty, []string, bool) {
+				if e.Self {
+					for _, f := range pl.Ins {
+						if f.Name == e.Path[0] {
+							return f.T, e.Path[1:], true
+						}
+					}
+					return Ty{}, nil, false
+				}
+				if len(e.Path) == 0 {
+					return Ty{}, nil, false
+				}
+				for _, c := range pl.Calls {
+					if c.Id == e.Call {
+						_, outs, _ := q.CalleeSig(c.Callee)
+						for _, f := range outs {
+							if f.Name == e.Path[0] {
+								return f.T, e.Path[1:], true
+							}
+						}
+					}
+				}
+				return Ty{}, nil, false
+			}
+			try := func(e *Expr) bool {
+				if e == nil || e.Kind != ERef {
+					return false
+				}
+				t, rest, ok := rootType(e)
+				if !ok || len(rest) == 0 {
+					return false
+				}
+				// walk to the struct which holds the last member
+				for _, m := range rest[:len(rest)-1] {
+					sd := q.Struct(t.Base)
+					if sd == nil {
+						return false
+					}
+					found := false
+					for _, f := range sd.Fields {
+						if f.Name == m {
+							t = Ty{f.T.Base, t.Dims + f.T.Dims}
+							found = true
+						}
+					}
+					if !found {
+						return false
+					}
+				}
+				sd := q.Struct(t.Base)
+				if sd == nil {
+					return false
+				}
+				last := rest[len(rest)-1]
+				var lt Ty
+				for _, f := range sd.Fields {
+					if f.Name == last {
+						lt = f.T
+					}
+				}
+				for _, f := range sd.Fields {
+					if f.Name != last && f.T == lt {
+						e.Path = append(append([]string{}, e.Path[:len(e.Path)-1]...), f.Name)
+						return true
+					}
+				}
+				return false
+			}
+			var walk func(e *Expr) bool
+			walk = func(e *Expr) bool {
+				if e == nil {
+					return false
+				}
+				if try(e) {
+					return true
+				}
+				for _, x := range e.Elems {
+					if walk(x) {
+						return true
+					}
+				}
+				return false
+			}
+			for _, c := range pl.Calls {
+				for _, b := range c.Binds {
+					if walk(b.E) {
+						return q, "", true
+					}
+				}
+			}
+			for _, b := range pl.Ret {
+				if walk(b.E) {
+					return q, "", true
+				}
+			}
+		}
+		return nil, "", false
+	}},
 	{"semantic:change-top-call-argument", true, func(p *Prog, plan *Tape) (*Prog, string, bool) {
 		q := cloneProg(p)
 		for bi, b := range q.Top.Binds {
@@ -400,11 +534,61 @@ func (r *Run) writeSplit(p *Prog, transform string) error {
 	return os.WriteFile(path.Join(r.MroDir, "pipeline.mro"), []byte("@include \"decls.mro\"\n\n"+call), 0644)
 }
 
+// templateStructRefProg: struct-typed pipeline inputs and struct-typed stage
+// outputs whose members (several of the same type) are projected by references,
+// directly, through a sub-pipeline and inside literals - the edit catalogue's
+// member retargeting has something to bite on in every binding position.
+func templateStructRefProg(plan *Tape) *Prog {
+	p := &Prog{}
+	intT, strT := Ty{Base: "int"}, Ty{Base: "string"}
+	cfgS := &StructDef{Name: "CFG", Fields: []Field{{"lanes", intT}, {"reads", intT}, {"name", strT}, {"tag", strT}}}
+	resS := &StructDef{Name: "RES", Fields: []Field{{"total", intT}, {"other", intT}, {"cfg", Ty{Base: "CFG"}}}}
+	p.Structs = []*StructDef{cfgS, resS}
+	cfgT, resT := Ty{Base: "CFG"}, Ty{Base: "RES"}
+	ref := func(call string, path ...string) *Expr { return &Expr{Kind: ERef, Call: call, Path: path} }
+	self := func(path ...string) *Expr { return &Expr{Kind: ERef, Self: true, Path: path} }
+	p.Stages = []*StageDef{
+		{Name: "USE", SrcKind: "comp", Ins: []Field{{"count", intT}, {"label", strT}}, Outs: []Field{{"res", resT}, {"n", intT}}},
+		{Name: "SUM", SrcKind: "comp", Ins: []Field{{"xs", intT.ArrayOf()}, {"c", cfgT}}, Outs: []Field{{"sum", intT}}},
+	}
+	inner := &PipelineDef{Name: "INNERS", Ins: []Field{{"cfg", cfgT}}, Outs: []Field{{"n", intT}, {"back", intT}}}
+	inner.Calls = []*CallDef{{Callee: "USE", Id: "USE", Binds: []Bind{{"count", self("cfg", "reads"), false}, {"label", self("cfg", "tag"), false}}}}
+	inner.Ret = []Bind{{"n", ref("USE", "res", "total"), false}, {"back", self("cfg", "lanes"), false}}
+	top := &PipelineDef{Name: "TOPS", Ins: []Field{{"cfg", cfgT}, {"k", intT}}}
+	top.Calls = []*CallDef{
+		{Callee: "USE", Id: "USE", Binds: []Bind{{"count", self("cfg", "lanes"), false}, {"label", self("cfg", "name"), false}}},
+		{Callee: "INNERS", Id: "INNERS", Binds: []Bind{{"cfg", self("cfg"), false}}},
+		{Callee: "SUM", Id: "SUM", Binds: []Bind{
+			{"xs", &Expr{Kind: EArr, T: intT.ArrayOf(), Elems: []*Expr{self("cfg", "reads"), ref("USE", "res", "other"), self("k")}}, false},
+			{"c", ref("USE", "res", "cfg"), false}}},
+	}
+	if plan.Draw(2) == 0 {
+		top.Calls[0].Disabled = nil
+		top.Calls = append(top.Calls, &CallDef{Callee: "USE", Id: "USE_2", Binds: []Bind{{"count", ref("USE", "res", "cfg", "lanes"), false}, {"label", ref("USE", "res", "cfg", "tag"), false}}})
+	}
+	top.Outs = []Field{{"total", intT}, {"lanes", intT}, {"sum", intT}}
+	top.Ret = []Bind{{"total", ref("USE", "res", "total"), false}, {"lanes", self("cfg", "lanes"), false}, {"sum", ref("SUM", "sum"), false}}
+	p.Pipelines = []*PipelineDef{inner, top}
+	cfgLit := NewOMap()
+	cfgLit.Set("lanes", int64(2+plan.Draw(5)))
+	cfgLit.Set("reads", int64(10+plan.Draw(50)))
+	cfgLit.Set("name", "sample")
+	cfgLit.Set("tag", "t"+fmt.Sprint(plan.Draw(9)))
+	p.Top = &CallDef{Callee: "TOPS", Id: "TOPS", Binds: []Bind{
+		{"cfg", &Expr{Kind: ELit, Val: cfgLit, T: cfgT}, false},
+		{"k", &Expr{Kind: ELit, Val: int64(plan.Draw(100)), T: intT}, false}}}
+	return p
+}
+
 func c15Case(c *Ctx) {
 	gcfg := swarmGen(c.Plan, c.thorough())
 	gcfg.Files = c.Plan.Draw(3) == 0
 	gcfg.Disabled = true
 	prog := Generate(c.Plan, gcfg)
+	if c.Plan.Draw(6) == 0 {
+		prog = templateStructRefProg(c.Plan)
+		c.Res.Probes["struct-reference-template"]++
+	}
 	// declare (without using it) an alternative version of one reachable stage: same
 	// inputs, one more output, opposite split behaviour
 	for _, st := range prog.Stages {
